@@ -338,6 +338,16 @@ PastRec(g) ==
     [ks |-> g.ks, epoch |-> g.epoch, leaf |-> g.leaf, recv |-> g.recv,
      who |-> [l \in OccupiedLeaves(g.tree) |-> Node(g.tree, 2 * l).who]]
 
+\* GroupStateRepository::insert accepts the epoch that is left only if it continues the stored history
+\* (id = last queued or stored id + 1).  That holds in every history of one membership.  Named deviation
+\* F14 (known finding): a party that was removed and joins again with the storage of its former membership
+\* finds unrelated old epoch ids there and every later epoch change fails with InvalidEpoch.
+InsertContinues(p) ==
+    \/ repo[p].ins # <<>>
+    \/ store[p].epochs = <<>>
+    \/ store[p].epochs[Len(store[p].epochs)].epoch + 1 = grp[p].epoch
+StuckF14(p) == "F14" \in Deviations /\ ~InsertContinues(p)
+
 \* Group::insert_past_epoch: processing a commit queues the epoch that is left
 RepoFollows(p) ==
     repo' = IF grp[p].st = "member" /\ grp'[p].st = "member" /\ grp'[p].ks # grp[p].ks
@@ -569,6 +579,9 @@ ApplyPending(p) ==
     /\ IF g.pend = 0
        THEN /\ UNCHANGED grp
             /\ Record("ApplyPending", p, [x |-> 0], "err:no-pending", [x |-> 0])
+       ELSE IF StuckF14(p)
+       THEN /\ UNCHANGED grp
+            /\ Record("ApplyPending", p, [x |-> 0], "err:epoch:F14", [x |-> 0])
        ELSE /\ IsWinner(g.pend)
             /\ grp' = [grp EXCEPT ![p] = ApplyOwn(g, g.pend)]
             /\ Record("ApplyPending", p, [x |-> 0], "ok", [commit |-> g.pend])
@@ -597,14 +610,18 @@ DeliverCommit(q, n) ==
        THEN \* a re-init has been committed: the group refuses further commits
             /\ UNCHANGED <<grp, zomb>>
             /\ Record("DeliverCommit", q, args, "err:frozen", [x |-> 0])
+       ELSE IF c.by = q /\ g.pend = n /\ StuckF14(q)
+       THEN /\ UNCHANGED <<grp, zomb>>
+            /\ Record("DeliverCommit", q, args, "err:epoch:F14", [x |-> 0])
        ELSE IF c.by = q /\ g.pend = n
        THEN \* own commit echoed back: matched by message hash, pending commit applied
             /\ grp' = [grp EXCEPT ![q] = ApplyOwn(g, n)]
             /\ UNCHANGED zomb
             /\ Record("DeliverCommit", q, args, "ok:own", [x |-> 0])
-       ELSE IF c.by = q /\ (c.path \/ opt.enc)
-       THEN \* own commit whose pending state was cleared: the path secrets are gone (and an own
-            \* PrivateMessage cannot be opened); a path-less public commit is processed like anybody else's
+       ELSE IF c.by = q /\ opt.enc
+       THEN \* own commit whose pending state is gone: an own PrivateMessage cannot be opened; a public one is
+            \* processed like anybody else's until the update path is reached (the path secrets are gone), so a
+            \* path-less public commit is even accepted
             /\ UNCHANGED <<grp, zomb>>
             /\ Record("DeliverCommit", q, args, "err:own-commit", [x |-> 0])
        ELSE IF ~(refs \subseteq g.cache)
@@ -641,7 +658,10 @@ DeliverCommit(q, n) ==
              \* confirmation tag
              pskSame == \A i \in 1..Len(c.psks) : c.psks[i].kind = "psk" => pskStore[q][c.psks[i].id] = c.psks[i].val
              rpskOk == \A i \in 1..Len(c.psks) : c.psks[i].kind = "rpsk" => RetainsEpoch(q, c.psks[i].epoch)
-         IN IF ~dec.ok
+         IN IF c.by = q /\ c.path
+            THEN /\ UNCHANGED <<grp, zomb>>
+                 /\ Record("DeliverCommit", q, args, "err:own-commit", [x |-> 0])
+            ELSE IF ~dec.ok
             THEN /\ UNCHANGED <<grp, zomb>>
                  /\ Record("DeliverCommit", q, args, "err:decap-" \o dec.why, [x |-> 0])
             ELSE IF ~rpskOk
@@ -650,6 +670,9 @@ DeliverCommit(q, n) ==
             ELSE IF ~pskSame
             THEN /\ UNCHANGED <<grp, zomb>>
                  /\ Record("DeliverCommit", q, args, "err:conf-tag", [x |-> 0])
+            ELSE IF StuckF14(q)
+            THEN /\ UNCHANGED <<grp, zomb>>
+                 /\ Record("DeliverCommit", q, args, "err:epoch:F14", [x |-> 0])
             ELSE /\ grp' = [grp EXCEPT ![q] = [g EXCEPT !.epoch = g.epoch + 1, !.ks = n, !.tree = tree1,
                                                         !.ext = c.newExt, !.frozen = c.reinit,
                                                         !.priv = MergeFn(RestrictFn(priv0, keep), learned),
@@ -812,7 +835,10 @@ Load(p) ==
 ApplyDetached(p, n) ==
     LET g == grp[p] IN
     /\ "detached" \in Features /\ HasGroup(p) /\ n \in det[p]
-    /\ IF commits[n].baseKs = g.ks
+    /\ IF commits[n].baseKs = g.ks /\ StuckF14(p)
+       THEN /\ UNCHANGED grp
+            /\ Record("ApplyDetached", p, [commit |-> n], "err:epoch:F14", [x |-> 0])
+       ELSE IF commits[n].baseKs = g.ks
        THEN /\ IsWinner(n)
             /\ grp' = [grp EXCEPT ![p] = ApplyOwn(g, n)]
             /\ Record("ApplyDetached", p, [commit |-> n], "ok", [x |-> 0])
